@@ -4,7 +4,7 @@ import RoutinatorModel.Proofs.History
 
 Model: `Model/History.lean` (`History.deltaSince`, `rtrDiff`, `httpDelta`) over
 `Model/Serial.lean` (RFC 1982 comparison with the incomparable case), as repaired by
-`fixes/C13-delta-since-incomparable-serial.patch`.
+`fixes/C13-delta-since-incomparable-serial.patch` and `fixes/C13-retained-base-version.patch`.
 
 All statements hold for every history satisfying the invariant `History.Wf`, which
 `wf_init` / `wf_update` / `wf_seed` / `wf_run` (Proofs/History.lean, re-exported below as
@@ -100,29 +100,33 @@ theorem C13_exact (h : History) (hw : h.Wf) (cur : Snapshot) (hcur : h.current =
         · rw [hcs, hser]
         · rw [← hd, ch.cur]; exact apply_empty ch.cur_wf _
         · rw [← hd]; rfl
-      · by_cases hx : h.deltas.length = 1 ∧ j = serialMod - 1
-        · -- a single delta and the client is one behind: that delta
-          obtain ⟨hx1, hx2⟩ := hx
-          have hvl : vs.length = 1 := by rw [← hlen]; exact hx1
-          match vs, hvl, ch with
-          | [v0], _, ch =>
-            have hr := ch.deltas
+      · by_cases hx : j = serialMod - 1
+        · -- the version the oldest retained delta starts from: merge of all retained deltas
+          have h0 : h.deltas ≠ [] := by
+            intro e; rw [e] at hlen; simp at hlen; omega
+          obtain ⟨x, xs, hrev, hres⟩ := deltaSince_base h (b.2 + 1) ch.serialsFrom hn h0
+          have hcb : c = b.2 := by
+            rw [hcj, hx]; have := ch.base_lt; unfold serialMod at *; omega
+          rw [hx] at hcj
+          rw [← hcj, hd] at hres
+          injection hres with hres
+          cases vs with
+          | nil => simp at hn0
+          | cons v0 vs0 =>
             obtain ⟨t, n⟩ := v0
+            have hr := ch.deltas
             simp only [consecutive] at hr
-            have hds : h.deltas = [PayloadDelta.between b.1 t n] := by
-              have := congrArg List.reverse hr; simpa using this
-            obtain ⟨hs1, _⟩ := ch.serials
-            simp only at hs1
-            have hcb : c = b.2 := by
-              rw [hcj, hx2]; have := ch.base_lt; unfold serialMod at *; omega
-            have := deltaSince_one_behind h _ [] hds c hc (by
-              simp only [PayloadDelta.between]; rw [hs1, hcb]; rfl)
-            rw [hd] at this
-            injection this with this
+            rw [hr] at hrev
+            injection hrev with e1 e2
+            subst e1; subst e2
+            have hfold := C12_fold_merge b.1 t n vs0 ch.base_wf (ch.vs_wf (t, n) (by simp))
+              (fun x hx => ch.vs_wf x (by simp [hx]))
+            have hlw : (lastOf (t, n) vs0).1.WF := by
+              have := ch.cur; rw [lastOf_cons] at this; rw [this]; exact ch.cur_wf
             refine ⟨b, hmem b (by simp), hcb.symm, ?_, ?_⟩
-            · rw [this, ← ch.cur, lastOf_cons, lastOf_nil]
-              exact C12_apply_merged ch.base_wf (ch.vs_wf (t, n) (by simp)) _
-            · rw [this, ch.serial, lastOf_cons, lastOf_nil]; rfl
+            · rw [hres, hfold, ← ch.cur, lastOf_cons]
+              exact C12_apply_merged ch.base_wf hlw _
+            · rw [hres, hfold, ch.serial, lastOf_cons]; rfl
         · -- everything else is refused
           have h0 : h.deltas ≠ [] := by
             intro e; rw [e] at hlen; simp at hlen; omega
@@ -135,9 +139,8 @@ theorem C13_current_empty (h : History) :
     h.deltaSince h.serial = some (PayloadDelta.empty h.serial) ∧
     (PayloadDelta.empty h.serial).isEmpty = true := ⟨deltaSince_serial h, rfl⟩
 
-/-- **Window.** Every serial a retained delta leads to is answered: with the history size
-`keep` and at least `keep` changes so far these are exactly the last `max keep 1` serials
-(see `C14_retained_count`). -/
+/-- **Window.** Every serial a retained delta leads to is answered (see `C13_window_base`
+for the version the oldest one starts from and `C13_window_last` for the arithmetic form). -/
 theorem C13_window (h : History) (hw : h.Wf) (cur : Snapshot) (hcur : h.current = some cur)
     (d : PayloadDelta) (hd : d ∈ h.deltas) : (h.deltaSince d.serial).isSome = true := by
   obtain ⟨hk, hw⟩ := hw
@@ -159,12 +162,41 @@ theorem C13_window (h : History) (hw : h.Wf) (cur : Snapshot) (hcur : h.current 
       rw [ch.serial, ch.serials.last b rfl ch.base_lt, ← hlen]; congr 1; omega
     rw [this, deltaSince_serial]; rfl
 
-/-- The window spelled out in serial arithmetic: each of the last `deltas.length` serials
-`S, S-1, …, S-(n-1)` (modulo 2^32, `S` the current serial) is answered. By
-`C14_retained_count`, `n = min (#changes) (max keep 1)`. -/
+/-- The version the oldest retained delta starts from (serial `S − n`) is answered as well
+(second repair): `n` retained deltas serve `n + 1` client serials. -/
+theorem C13_window_base (h : History) (hw : h.Wf) (cur : Snapshot) (hcur : h.current = some cur) :
+    (h.deltaSince ((h.serial + serialMod - h.deltas.length) % serialMod)).isSome = true := by
+  obtain ⟨hk, hw⟩ := hw
+  rw [hcur] at hw
+  obtain ⟨b, vs, ch⟩ := hw
+  have hlen := ch.length
+  have hn : h.deltas.length < serialHalf := by
+    have := ch.bound; rw [hlen]; unfold serialHalf at *; omega
+  by_cases h0 : h.deltas = []
+  · have hs : h.serial = 0 := by unfold History.serial; rw [h0]
+    have e : (h.serial + serialMod - h.deltas.length) % serialMod = h.serial := by
+      rw [hs, h0]; simp [serialMod]
+    rw [e, deltaSince_serial]; rfl
+  · obtain ⟨x, xs, _, hres⟩ := deltaSince_base h (b.2 + 1) ch.serialsFrom hn h0
+    have hpos : 0 < h.deltas.length := List.length_pos_iff.mpr h0
+    have e : (h.serial + serialMod - h.deltas.length) % serialMod
+        = (b.2 + 1 + (serialMod - 1)) % serialMod := by
+      rw [ch.serial, ch.serials.last b rfl ch.base_lt, ← hlen]
+      have := ch.base_lt
+      unfold serialMod serialHalf at *; omega
+    rw [e, hres]; rfl
+
+/-- **Window**, spelled out in serial arithmetic: each of the `n + 1` serials
+`S, S−1, …, S−n` (modulo 2^32; `S` the current serial, `n` the number of retained deltas)
+is answered. By `C14_retained_count`, `n = min (#changes) (max keep 1)`: in early history
+(`#changes < max keep 1`) these are all serials issued so far, later they include the last
+`max keep 1` serials. -/
 theorem C13_window_last (h : History) (hw : h.Wf) (cur : Snapshot) (hcur : h.current = some cur)
-    (i : Nat) (hi : i < h.deltas.length) :
+    (i : Nat) (hi : i ≤ h.deltas.length) :
     (h.deltaSince ((h.serial + serialMod - i) % serialMod)).isSome = true := by
+  by_cases hi' : i = h.deltas.length
+  · rw [hi']; exact C13_window_base h hw cur hcur
+  have hi : i < h.deltas.length := by omega
   have hw' := hw
   obtain ⟨hk, hw⟩ := hw
   rw [hcur] at hw
@@ -184,9 +216,53 @@ theorem C13_window_last (h : History) (hw : h.Wf) (cur : Snapshot) (hcur : h.cur
     unfold serialMod serialHalf at *; omega
   rw [← hs]; exact hwin
 
-/-- **Refusal.** A serial that is not the serial of one of the newest `deltas.length + 1`
-logged versions — future, never issued, too old, at distance 2^31, on the other side of a
-wrap-around — is refused. -/
+/-- **Answered exactly for the reconstructible versions.** A client serial gets a change set
+iff it is the serial of one of the newest `deltas.length + 1` logged versions. -/
+theorem C13_answered_iff (h : History) (hw : h.Wf) (cur : Snapshot) (hcur : h.current = some cur)
+    (c : Nat) (hc : c < serialMod) :
+    (h.deltaSince c).isSome = true ↔ ∃ v ∈ h.log.take (h.deltas.length + 1), v.2 = c := by
+  constructor
+  · intro hs
+    cases hd : h.deltaSince c with
+    | none => rw [hd] at hs; simp at hs
+    | some d =>
+      obtain ⟨v, hv, hvc, _⟩ := C13_exact h hw cur hcur c hc d hd
+      exact ⟨v, hv, hvc⟩
+  · rintro ⟨v, hv, hvc⟩
+    have hw' := hw
+    obtain ⟨hk, hw⟩ := hw
+    rw [hcur] at hw
+    obtain ⟨b, vs, ch⟩ := hw
+    have hlen := ch.length
+    have hlast := ch.serials.last b rfl ch.base_lt
+    have hbl := ch.base_lt
+    have hn : vs.length < serialHalf := by
+      have := ch.bound; unfold serialHalf at *; omega
+    obtain ⟨older, hl⟩ := ch.log
+    rw [hl, hlen, List.take_append_of_le_length (by simp),
+      List.take_of_length_le (by simp)] at hv
+    simp at hv
+    rcases hv with hv | hv
+    · -- one of the versions the retained deltas lead to
+      obtain ⟨k, hk', hvk⟩ := List.getElem_of_mem hv
+      have hser := ch.serials.getElem k hk'
+      rw [hvk] at hser
+      have := C13_window_last h hw' cur hcur (vs.length - 1 - k) (by rw [hlen]; omega)
+      have e : (h.serial + serialMod - (vs.length - 1 - k)) % serialMod = c := by
+        rw [← hvc, hser, ch.serial, hlast]
+        unfold serialMod serialHalf at *; omega
+      rw [e] at this; exact this
+    · -- the version the oldest retained delta starts from
+      have := C13_window_base h hw' cur hcur
+      have e : (h.serial + serialMod - h.deltas.length) % serialMod = c := by
+        rw [← hvc, hv, ch.serial, hlast, hlen]
+        unfold serialMod serialHalf at *; omega
+      rw [e] at this; exact this
+
+/-- **Refusal.** A serial that is neither the serial a retained delta leads to nor the
+serial of the version the oldest retained delta starts from — i.e. not the serial of one of
+the newest `deltas.length + 1` logged versions: future, never issued, too old, at distance
+2^31, on the other side of a wrap-around — is refused. With `C13_answered_iff` this is tight. -/
 theorem C13_refuse (h : History) (hw : h.Wf) (cur : Snapshot) (hcur : h.current = some cur)
     (c : Nat) (hc : c < serialMod)
     (hno : ∀ v ∈ h.log.take (h.deltas.length + 1), v.2 ≠ c) : h.deltaSince c = none := by
@@ -299,13 +375,30 @@ theorem C13_unrepaired_violates :
     History.deltaSinceOrig, History.deltaSince, History.deltaSinceWith, skipToOrig, skipTo,
     serialLt, serialPcmp, serialHalf, PayloadDelta.empty]
 
+/-- Second negation witness: without the `from_oldest` test (first repair only, and the
+pinned tree alike) the history after two changes with history size 10 — serials 0, 1, 2
+logged, both deltas retained — refuses the client at serial 0, one of the last 10 serials;
+the repaired `delta_since` answers it with the merged delta. -/
+theorem C13_base_unrepaired_violates :
+    let s : Nat → Snapshot := fun i => ⟨[i], [], []⟩
+    let h := (History.init 10 7).run [.update (s 0), .update (s 1), .update (s 2)]
+    h.serial = 2 ∧ h.deltas.length = 2 ∧ (h.log.take 3).map Prod.snd = [2, 1, 0] ∧
+    h.deltaSinceNoBase 0 = none ∧ h.deltaSinceOrig 0 = none ∧
+    (h.deltaSince 0).map (fun d => (d.serial, d.origins))
+      = some (2, [(0, .withdraw), (2, .announce)]) := by
+  simp [History.run, History.step, History.init, History.update, History.serial,
+    History.pushDelta, PayloadDelta.construct, PayloadDelta.isEmpty, stdConstruct, aspaConstruct,
+    keyed, mergeH, consOpt, serialAdd, serialMod, History.deltaSince, History.deltaSinceNoBase,
+    History.deltaSinceOrig, History.deltaSinceWith, skipTo, skipToOrig,
+    serialLt, serialPcmp, serialHalf, PayloadDelta.merge, stdMerge, stdMergeAct, aspaMerge]
+
 /-! Non-vacuity: a reachable history with three retained deltas across the wrap-around. -/
 example :
     let s : Nat → Snapshot := fun i => ⟨[i], [], []⟩
     let h := (History.init 3 7).run [.update (s 0), .seed 4294967295, .update (s 1), .update (s 2)]
     h.deltas.map (·.serial) = [1, 0, 4294967295] ∧
     (h.deltaSince 4294967295).map (·.origins) = some [(0, .withdraw), (2, .announce)] ∧
-    h.deltaSince 4294967294 = none := by
+    (h.deltaSince 4294967294).isSome = true ∧ h.deltaSince 4294967293 = none := by
   simp [History.run, History.step, History.init, History.update, History.seed, History.serial,
     History.pushDelta, PayloadDelta.construct, PayloadDelta.isEmpty, stdConstruct, aspaConstruct,
     keyed, mergeH, consOpt, serialAdd, serialMod, History.deltaSince, History.deltaSinceWith, skipTo,
